@@ -35,6 +35,7 @@ type CEnv struct {
 	curHeap     map[string]Tm // nil: st.heap
 	inOld       bool
 	traceBase   int
+	atHeader    map[string]*Val
 	panicked    bool
 	panicVal    *Val
 	allocBefore Tm
@@ -1210,6 +1211,23 @@ func (e *CEnv) call(n *ast.CallExpr) *Val {
 			e.errf("evrecv: no such event / receiver")
 		}
 		return ev.Recv
+	case "atheader":
+		// atheader(v): in a loop invariant checked at a back edge, the value the loop-carried local v
+		// had at the start of the iteration; on loop entry (no iteration yet) the current value
+		if len(n.Args) != 1 {
+			e.errf("atheader(v)")
+		}
+		id, ok := n.Args[0].(*ast.Ident)
+		if !ok {
+			e.errf("atheader wants a local variable")
+		}
+		if e.atHeader != nil {
+			if v, ok := e.atHeader[id.Name]; ok {
+				return v
+			}
+			e.errf("atheader: %s is not carried by this loop", id.Name)
+		}
+		return e.eval(n.Args[0])
 	case "at":
 		// at(k, e): evaluate e in the heap as it was when event k was emitted
 		if len(n.Args) != 2 {
